@@ -44,6 +44,7 @@ pub fn dump_and_check(args: &Args) -> i32 {
     let mut bad: Vec<String> = vec![];
     let mut scalars = 0usize;
     let mut unlowerable: Vec<u32> = vec![];
+    let mut titlecase_like = 0usize;
     let sep = |c: char| c.is_whitespace() || c.is_control() || punct(c);
     for cp in 0..=0x10FFFFu32 {
         let c = match std::char::from_u32(cp) { Some(c) => c, None => continue };
@@ -57,6 +58,23 @@ pub fn dump_and_check(args: &Args) -> i32 {
         if l.is_uppercase() && l != c { bad.push(format!("lower_result_upper U+{:04X}", cp)); }
         if c.is_uppercase() && l == c { unlowerable.push(cp); }
         if !c.is_uppercase() && l != c && !c.is_alphabetic() { bad.push(format!("lower_changes_nonalpha U+{:04X}", cp)); }
+        // extra oracle facts used by the C11 re-casing theorems
+        if sep(l) != sep(c) { bad.push(format!("sep_lower U+{:04X}", cp)); }
+        if !c.is_uppercase() && l != c { titlecase_like += 1; }
+    }
+    // CaseClosed: folding a character and folding its lower-case form agree up to case, for every language's reduce table
+    let mut case_closed_checked = 0usize;
+    for code in crate::real::LANGS.iter() {
+        let lg = crate::real::make_lang(code);
+        for cp in 0..=0x10FFFFu32 {
+            let c = match std::char::from_u32(cp) { Some(c) => c, None => continue };
+            let l = lower1(c);
+            if l == c { continue; }
+            case_closed_checked += 1;
+            let r1: Vec<char> = lg.unicode_reduce(&[c]).map(|x| x.1).unwrap_or(vec![c]).into_iter().map(lower1).collect();
+            let r2: Vec<char> = lg.unicode_reduce(&[l]).map(|x| x.1).unwrap_or(vec![l]).into_iter().map(lower1).collect();
+            if r1 != r2 { bad.push(format!("case_closed[{}] U+{:04X}", code, cp)); }
+        }
     }
     if !'\0'.is_control() { bad.push("nul_is_control".to_string()); }
 
@@ -95,6 +113,7 @@ pub fn dump_and_check(args: &Args) -> i32 {
     let mut j = String::from("{");
     let _ = write!(j, "\"ok\":{},\"scalars\":{},\"unicode_fact_violations\":{},\"unicode_bad\":[{}],", ok, scalars, bad.len(),
         bad.iter().take(20).map(|s| json_str(s)).collect::<Vec<_>>().join(","));
+    let _ = write!(j, "\"titlecase_like\":{},\"case_closed_checked\":{},", titlecase_like, case_closed_checked);
     let _ = write!(j, "\"unlowerable_uppercase\":{},\"unlowerable_digest\":\"{:016x}\",", unlowerable.len(), { let mut h = 0xcbf29ce484222325u64; for c in &unlowerable { fnv1a(&mut h, &c.to_string()); } h });
     let _ = write!(j, "\"float_evaluations\":{},\"float_max_len\":{},\"float_bad\":[{}]}}", float_evals, n, float_bad.iter().map(|s| json_str(s)).collect::<Vec<_>>().join(","));
     let _ = std::fs::write(&args.out, &j);
